@@ -89,7 +89,7 @@ const (
 	c12Slack    = 1e-12 // range and monotonicity slack of a CDF that is a rounded average
 	c12TolBW    = 1e-12 // relative, bandwidth rules
 	c12MinMass  = 0.98
-	c12EdgeSlak = 1e-9 // relative widening of Bounds before its mass is measured
+	c12EdgeUlps = 64 // widening of Bounds, in ulps of the working magnitude, before its mass is measured
 
 	// Gaussian kernel: where the reference density is above c12TailFloor
 	// (28 decades above the smallest normal float64) the library's density
@@ -414,18 +414,25 @@ func (t *c12Ctx) judgeBounds(m *ref.KDEModel, blo, bhi float64, what string) {
 	if blo < t.bmin || bhi > t.bmax {
 		t.bad("bounds-outside-boundaries", fmt.Sprintf("%sBounds()=(%.17g,%.17g) not inside [%g,%g]", what, blo, bhi, t.bmin, t.bmax))
 	}
-	slack := c12EdgeSlak * (math.Max(math.Abs(blo), math.Abs(bhi)) + (t.xmax - t.xmin))
-	if t.c.Kernel != ref.KDelta {
-		slack += c12EdgeSlak * m.H
-	}
+	// The interval is widened before its mass is measured by c12EdgeUlps
+	// ulps at the magnitude in which an implementation forms the images of a
+	// point (end points, data, boundaries): an end point found by a search on
+	// a CDF that is itself formed in rounded arithmetic can sit that far from
+	// where exact arithmetic would put it, and a search on the step function
+	// of the delta kernel ends on one of the two floats next to a jump. The
+	// allowance is in ulps, not relative to the magnitude: 1e-9 x magnitude is
+	// whole bandwidths for data 1e9 bandwidths from the origin. The mass
+	// itself is held to the statement's 98% less twice the tolerance of a CDF
+	// value.
+	slack := c12EdgeUlps * ulp(t.mag(math.Max(math.Abs(blo), math.Abs(bhi))))
 	var mass float64
 	if t.c.Kernel == ref.KDelta {
 		mass = m.PointMass(blo-slack, bhi+slack)
 	} else {
 		mass = m.CDF(bhi+slack) - m.CDF(blo-slack)
 	}
-	w.Err("Bounds-mass-deficit", math.Max(0, 1-mass), 1-c12MinMass)
-	if !(mass >= c12MinMass) {
+	w.Err("Bounds-mass-deficit", math.Max(0, 1-mass), 1-c12MinMass+2*c12TolCDF)
+	if !(mass >= c12MinMass-2*c12TolCDF) {
 		t.bad("bounds-mass", fmt.Sprintf("%sBounds()=(%.17g,%.17g) holds %.6g of the mass, want >= 0.98", what, blo, bhi, mass))
 	}
 }
@@ -526,6 +533,16 @@ func c12JudgeKDE(w *mon.W, c c12Case) {
 	if sp := base.xmax - base.xmin; sp > 0 {
 		w.HitIf(sp <= 1e-6, "data-scale<=1e-6")
 		w.HitIf(sp >= 1e6, "data-scale>=1e6")
+		if base.maxAbs >= 1e8*sp {
+			// non-constant data far from the origin compared with their spread
+			// (time stamps in nanoseconds, large counters)
+			bd, b0, b1, _ := c12Config(c)
+			w.Hit("data>=1e8-spreads-from-origin")
+			w.HitIf(base.maxAbs >= 1e10*sp, "data>=1e10-spreads-from-origin")
+			w.HitIf(ws != nil, "far-data/weights")
+			w.HitIf(bd, "far-data/boundaries")
+			w.HitIf(bd && (b0 == base.xmin || b1 == base.xmax), "far-data/boundary-touching-data")
+		}
 	}
 
 	// phase 0: the KDE as constructed
@@ -1535,7 +1552,7 @@ func c12Data(rng *mon.Rand, n int, minCentre, maxCentre float64) (xs []float64, 
 }
 
 func c12Run(r *mon.Run) {
-	r.Rule("KDEs over samples of 1..40 values (uniform, clustered, tied lattice, normal, outlier, constant; data scale log-uniform over 1e-12..1e12 in every class, all oracles being relative to the data scale; location up to 1000 spreads from the origin, in a quarter of the zero-bandwidth class 1e3..1e7 spreads), optional positive weights, 3 kernels, bandwidth 0.02..50 spreads (or 0 = Scott's rule, unweighted data with positive IQR), 4 boundary configurations at distance 0..100 spreads, no boundaries written (0,0) or (-Inf,+Inf); per KDE: 60 points (data points and their neighbours, kernel ends, boundaries and their neighbours, outside the boundaries, far away, uniform over the support), 6 sub-interval integrals plus the total mass, Bounds; Gaussian kernel: also points 5..37 bandwidths beyond the data (tails). Call histories: a zero-Bandwidth KDE's first call (PDF, CDF or Bounds, at a sample value or any point) is judged by value, as are first calls of three more fresh zero-Bandwidth twins at other points; every fourth random KDE (and half of the zero-bandwidth ones) is, after its evaluation, re-parameterised (Bandwidth and/or Kernel and/or boundaries assigned; in the zero-bandwidth class also Bandwidth set back to 0) on the same struct and on a by-value copy of the struct as first used, and each is evaluated again (about 30 points, 2 integrals, Bounds) against the model of the new parameters; three in eight random KDEs (a quarter of the zero-bandwidth ones) instead go through four steps that change the sample after use (all of Sample.Xs and/or Sample.Weights overwritten in place; another Sample of the same or of another length assigned, with or without weights; on the struct and on by-value copies, which share the backing arrays of the first sample, so that a write through one is seen by the other), each step followed by an evaluation against the model of the data and parameters the struct holds at the time of the call. Plus an enumerated family of small integer samples, and the bandwidth rules on Samples and on a harness type. Non-trivial = hits a class; distinct by hash of (data, weights, kernel, bandwidth, boundaries).")
+	r.Rule("KDEs over samples of 1..40 values (uniform, clustered, tied lattice, normal, outlier, constant; data scale log-uniform over 1e-12..1e12 in every class, all oracles being relative to the data scale; location up to 1000 spreads from the origin, in a quarter of the zero-bandwidth class 1e3..1e7 spreads, in the far class 1e8..1e12 spreads), optional positive weights, 3 kernels, bandwidth 0.02..50 spreads (or 0 = Scott's rule, unweighted data with positive IQR), 4 boundary configurations at distance 0..100 spreads, no boundaries written (0,0) or (-Inf,+Inf); per KDE: 60 points (data points and their neighbours, kernel ends, boundaries and their neighbours, outside the boundaries, far away, uniform over the support), 6 sub-interval integrals plus the total mass, Bounds; Gaussian kernel: also points 5..37 bandwidths beyond the data (tails). Call histories: a zero-Bandwidth KDE's first call (PDF, CDF or Bounds, at a sample value or any point) is judged by value, as are first calls of three more fresh zero-Bandwidth twins at other points; every fourth random KDE (and half of the zero-bandwidth ones) is, after its evaluation, re-parameterised (Bandwidth and/or Kernel and/or boundaries assigned; in the zero-bandwidth class also Bandwidth set back to 0) on the same struct and on a by-value copy of the struct as first used, and each is evaluated again (about 30 points, 2 integrals, Bounds) against the model of the new parameters; three in eight random KDEs (a quarter of the zero-bandwidth ones) instead go through four steps that change the sample after use (all of Sample.Xs and/or Sample.Weights overwritten in place; another Sample of the same or of another length assigned, with or without weights; on the struct and on by-value copies, which share the backing arrays of the first sample, so that a write through one is seen by the other), each step followed by an evaluation against the model of the data and parameters the struct holds at the time of the call. Plus Bounds under stress (three clusters of values, each outer cluster carrying 0.3%..1.2% of the weight beyond a gap much wider than the bandwidth, so that the distribution function has a plateau near the levels an end-point search aims at; the oracle is the statement's 98%), non-constant samples 1e8..1e12 spreads from the origin (bandwidth at least 1024 ulps of the data; weights, boundaries also touching the data; Bounds' end points are held to 64 ulps), an enumerated family of small integer samples, and the bandwidth rules on Samples and on a harness type. Non-trivial = hits a class; distinct by hash of (data, weights, kernel, bandwidth, boundaries).")
 	r.Assume("reference: weighted kernel average written from the definition (Neumaier sums), explicit mirror-image sums for the folded estimate (Gaussian images beyond 12 bandwidths dropped: < 5e-32 of the peak), window masses evaluated in the well-conditioned tail; self-tested at start-up against hand-computed values, the 384-bit normal CDF and its own integrals; Go's math.Exp/Erf/Erfc are trusted",
 		"in-domain: data inside [BoundaryMin,BoundaryMax]; single-valued samples (n = 1 or constant) of any magnitude up to 1e19 (beyond 2^53 KDE.Bounds used to loop for ever: defect D22, repaired); positive weights; zero Bandwidth only with unweighted data, n >= 2 and positive IQR (weighted standard deviation is not implemented by the library and panics by design); finite evaluation points",
 		"no step budget inside Bounds itself: KDE.Bounds calls KDE.CDF directly, there is no harness callback to count. Stand-in: before every Bounds call the harness walks away from the data in doubling steps and requires the library's CDF to reach 0.005 / 0.995 within 2200 evaluations per side (else violation, Bounds not called); a case already refuted at its evaluation points is not continued. Any other non-termination can only trip the watchdog (inconclusive)",
@@ -1566,6 +1583,8 @@ func c12Run(r *mon.Run) {
 		"resample/xs-inplace", "resample/ws-inplace", "resample/both-inplace", "resample/assign-same-length", "resample/assign-other-length",
 		"resample/on-copy", "resample/on-same-struct", "resample/seen-through-shared-arrays", "resample/total-weight-changed",
 		"resample/weighted<->unweighted", "reparam/zero-bandwidth-after-resample")
+	gates = append(gates, "bounds-plateau", "bounds-plateau/both-tails-0.4%..0.6%", "bounds-plateau/both-tails-0.9%..1.1%",
+		"data>=1e8-spreads-from-origin", "data>=1e10-spreads-from-origin", "far-data/weights", "far-data/boundaries", "far-data/boundary-touching-data")
 	r.Gate(append(gates, "single-valued-sample-beyond-2^53")...)
 
 	const npts, nivs = 60, 6
@@ -1821,6 +1840,161 @@ func c12Run(r *mon.Run) {
 		c.H = mon.F(h)
 		w.Hit("single-valued-sample-beyond-2^53")
 		c12Points(rng, &c, h, 30, 4)
+		c12Judge(w, c)
+		w.Distinct(c12Hash(c))
+	})
+
+	// 3c. Bounds under stress: the statement's number (98% of the mass) is
+	// only approached when a little weight sits beyond a gap on each side, so
+	// that the distribution function has a plateau near the levels a search
+	// for the end points aims at, and whatever margin is added to the end
+	// points does not reach the outer values. Three clusters of values (1..3
+	// outer values each), the weight of each outer cluster swept over 0.3% ..
+	// 1.2% of the total (samples of at most 40 values need weights for that),
+	// bandwidth 0.02..0.05 spreads, small against the gaps; all kernels and
+	// boundary configurations. The oracle is the statement's 98%.
+	plateauF := []float64{0.3, 0.4, 0.45, 0.5, 0.55, 0.6, 0.8, 0.95, 1.0, 1.05, 1.1, 1.2} // percent
+	r.Parallel("bounds-plateau", r.Pick(576, 5760), func(w *mon.W, i int) {
+		rng := w.Rng
+		kernel := i % 3
+		fL := plateauF[(i/3)%len(plateauF)] / 100
+		fR := fL * rng.Uniform(0.97, 1.03)
+		switch (i / 36) % 4 {
+		case 1:
+			fR = fL
+		case 3:
+			fR = rng.LogUniform(0.001, 0.025)
+			if rng.Bool() {
+				fL, fR = fR, fL
+			}
+		}
+		conf := (i / 144) % 4
+		nL, nR := rng.Range(1, 3), rng.Range(1, 3)
+		nC := int(rng.Pick(1, 1, 2, 5, 12, 34))
+		cw := rng.Pick(0, 0, 0.002, 0.01)
+		cpos := rng.Uniform(0.25, 0.75)
+		scale := rng.LogUniform(1e-6, 1e6)
+		if rng.Bool() {
+			scale = rng.Pick(1, 2, 20, 100)
+		}
+		loc := 0.0
+		switch rng.Intn(4) {
+		case 0:
+			cpos, loc = 0.5, -0.5*scale // symmetric about the origin
+		case 1:
+			loc = rng.Sign() * rng.LogUniform(0.01, 100) * scale
+		case 2:
+			loc = -cpos * scale
+		}
+		var xs, ws []float64
+		total := rng.LogUniform(1e-3, 1e3)
+		if rng.Bool() {
+			total = 100
+		}
+		cluster := func(n int, a, b, wt float64) {
+			// n values in [a,b] (the first at a), weights splitting wt
+			cuts := make([]float64, n)
+			sum := 0.0
+			for j := range cuts {
+				cuts[j] = rng.Uniform(0.2, 1)
+				sum += cuts[j]
+			}
+			for j := 0; j < n; j++ {
+				x := a
+				if j > 0 {
+					x = rng.Uniform(a, b)
+				}
+				xs = append(xs, loc+scale*x)
+				ws = append(ws, wt*cuts[j]/sum)
+			}
+		}
+		cluster(nL, 0, cw, fL*total)
+		cluster(nC, cpos-cw, cpos+cw, (1-fL-fR)*total)
+		cluster(nR, 1, 1-cw, fR*total)
+		// order of the values in the sample: as built, or shuffled
+		if rng.Bool() {
+			for j := len(xs) - 1; j > 0; j-- {
+				k := rng.Intn(j + 1)
+				xs[j], xs[k] = xs[k], xs[j]
+				ws[j], ws[k] = ws[k], ws[j]
+			}
+		}
+		xmin, xmax := c12MinMax(xs)
+		spread := xmax - xmin
+		h := rng.LogUniform(0.02, 0.05) * spread
+		if kernel == ref.KGaussian {
+			h = rng.LogUniform(0.02, 0.035) * spread
+		}
+		c := c12Case{Op: "kde", Xs: mon.Fs(xs), Ws: mon.Fs(ws), Kernel: kernel, H: mon.F(h)}
+		bmin, bmax := c12Boundaries(rng, conf, xmin, xmax, spread)
+		c.BMin, c.BMax = mon.F(bmin), mon.F(bmax)
+		c12Points(rng, &c, h, 20, 2)
+		w.Hit("bounds-plateau")
+		in := func(f, a, b float64) bool { return f >= a && f <= b }
+		w.HitIf(in(fL, 0.004, 0.006) && in(fR, 0.004, 0.006), "bounds-plateau/both-tails-0.4%..0.6%")
+		w.HitIf(in(fL, 0.009, 0.011) && in(fR, 0.009, 0.011), "bounds-plateau/both-tails-0.9%..1.1%")
+		c12Judge(w, c)
+		w.Distinct(c12Hash(c))
+	})
+
+	// 3d. non-constant samples far from the origin compared with their spread
+	// (1e8 .. 1e12 spreads: time stamps in nanoseconds of events seconds
+	// apart, large counters), with weights and boundaries. The bandwidth stays
+	// at or above 1024 ulps of the data, so that the kernel is resolved by the
+	// floats around the data; every tolerance carries its conditioning term
+	// (eps x magnitude / bandwidth), and the end points of Bounds are held to
+	// a few ulps, not to a fraction of their magnitude.
+	r.Parallel("kde-far", r.Pick(480, 4800), func(w *mon.W, i int) {
+		rng := w.Rng
+		kernel := i % 3
+		conf := (i / 3) % 4
+		var xs []float64
+		for {
+			n := rng.Range(2, 40)
+			if rng.Intn(4) == 0 {
+				n = rng.Range(2, 4)
+			}
+			xs, _ = c12Data(rng, n, 1e8, 1e12)
+			if a, b := c12MinMax(xs); b > a {
+				break
+			}
+		}
+		n := len(xs)
+		c := c12Case{Op: "kde", Xs: mon.Fs(xs), Kernel: kernel}
+		if (i/12)%2 == 1 {
+			ws := c12Weights(rng, n)
+			if rng.Intn(3) == 0 {
+				// a light first or last value
+				sort.Float64s(xs)
+				c.Xs = mon.Fs(xs)
+				c.Sorted = rng.Bool()
+				ws[rng.PickI(0, n-1)] *= 0.01
+			}
+			c.Ws = mon.Fs(ws)
+		}
+		xmin, xmax := c12MinMax(xs)
+		spread := xmax - xmin
+		h := rng.LogUniform(0.02, 50) * spread
+		if rng.Intn(3) == 0 {
+			h = rng.LogUniform(0.02, 0.3) * spread
+		}
+		h = math.Max(h, 1024*ulp(math.Max(math.Abs(xmin), math.Abs(xmax))))
+		c.H = mon.F(h)
+		bmin, bmax := c12Boundaries(rng, conf, xmin, xmax, spread)
+		if conf != 0 && (i/24)%2 == 1 {
+			// a boundary touching the data (the start or the end of a recording)
+			if conf == 1 || (conf == 3 && rng.Bool()) {
+				bmin = xmin
+			} else {
+				bmax = xmax
+			}
+		}
+		if conf == 3 && h > 50*(bmax-bmin) {
+			h = 50 * (bmax - bmin) * rng.Uniform(0.5, 1)
+			c.H = mon.F(h)
+		}
+		c.BMin, c.BMax = mon.F(bmin), mon.F(bmax)
+		c12Points(rng, &c, h, 24, 2)
 		c12Judge(w, c)
 		w.Distinct(c12Hash(c))
 	})
